@@ -1,6 +1,7 @@
 // Native refutation/replay driver for the table unit (properties C11, C12, C13): runs the real ClaimTable against a
 // reference model written from the property statements, over all operation sequences of length <= 3 and seeded random
-// sequences of length 40, on 2 peers x 5 nested/overlapping ranges x 6 probe addresses.
+// sequences of length 40, on 2 peers x 5 nested/overlapping ranges x 6 probe addresses (IPv4), and - length <= 2 exhaustive, random to 40 -
+// on an IPv6 and a MAC universe with nested prefixes of 24..128 bits.
 // It prints `FAILING-INPUT: <history>` for the first histories on which the real table deviates.
 use super::*;
 use crate::util::MockTimeSource;
@@ -11,13 +12,37 @@ const CACHE_T: i64 = 10;
 const CLAIM_T: i64 = 30;
 
 fn a4(a: u8, b: u8, c: u8, d: u8) -> Address { let mut data = [0u8; 16]; data[0] = a; data[1] = b; data[2] = c; data[3] = d; Address { data, len: 4 } }
+static UNIVERSE: std::sync::atomic::AtomicUsize = std::sync::atomic::AtomicUsize::new(0);
+fn an(bytes: &[u8]) -> Address { let mut data = [0u8; 16]; data[..bytes.len()].copy_from_slice(bytes); Address { data, len: bytes.len() as u8 } }
 fn ranges() -> Vec<Range> {
+    match UNIVERSE.load(std::sync::atomic::Ordering::SeqCst) {
+        // IPv6: nested /32 < /48 < /64 < /128 and a disjoint /8 (prefixes of 32 bits and more are ordinary here)
+        1 => return vec![
+            Range { base: an(&[0x20, 1, 0xd, 0xb8, 0, 0, 0, 0, 0, 0, 0, 0, 0, 0, 0, 0]), prefix_len: 32 }, Range { base: an(&[0x20, 1, 0xd, 0xb8, 0, 1, 0, 0, 0, 0, 0, 0, 0, 0, 0, 0]), prefix_len: 48 },
+            Range { base: an(&[0x20, 1, 0xd, 0xb8, 0, 1, 0, 1, 0, 0, 0, 0, 0, 0, 0, 0]), prefix_len: 64 }, Range { base: an(&[0x20, 1, 0xd, 0xb8, 0, 1, 0, 1, 0, 0, 0, 0, 0, 0, 0, 1]), prefix_len: 128 },
+            Range { base: an(&[0xfc, 0, 0, 0, 0, 0, 0, 0, 0, 0, 0, 0, 0, 0, 0, 0]), prefix_len: 8 },
+        ],
+        // MAC addresses: /24 (vendor) < /32 < /40 < /48 and a disjoint /8
+        2 => return vec![
+            Range { base: an(&[2, 0, 0, 0, 0, 0]), prefix_len: 24 }, Range { base: an(&[2, 0, 0, 1, 0, 0]), prefix_len: 32 },
+            Range { base: an(&[2, 0, 0, 1, 1, 0]), prefix_len: 40 }, Range { base: an(&[2, 0, 0, 1, 1, 1]), prefix_len: 48 },
+            Range { base: an(&[6, 0, 0, 0, 0, 0]), prefix_len: 8 },
+        ],
+        _ => {}
+    }
     vec![
         Range { base: a4(10, 0, 0, 0), prefix_len: 8 }, Range { base: a4(10, 1, 0, 0), prefix_len: 16 }, Range { base: a4(10, 1, 1, 0), prefix_len: 24 },
         Range { base: a4(10, 1, 1, 1), prefix_len: 32 }, Range { base: a4(20, 0, 0, 0), prefix_len: 8 },
     ]
 }
-fn probes() -> Vec<Address> { vec![a4(10, 1, 1, 1), a4(10, 1, 1, 2), a4(10, 1, 2, 1), a4(10, 2, 0, 1), a4(20, 0, 0, 1), a4(30, 0, 0, 1)] }
+fn probes() -> Vec<Address> {
+    match UNIVERSE.load(std::sync::atomic::Ordering::SeqCst) {
+        1 => return vec![an(&[0x20, 1, 0xd, 0xb8, 0, 1, 0, 1, 0, 0, 0, 0, 0, 0, 0, 1]), an(&[0x20, 1, 0xd, 0xb8, 0, 1, 0, 1, 0, 0, 0, 0, 0, 0, 0, 2]), an(&[0x20, 1, 0xd, 0xb8, 0, 1, 0, 2, 0, 0, 0, 0, 0, 0, 0, 1]),
+                         an(&[0x20, 1, 0xd, 0xb8, 0, 2, 0, 0, 0, 0, 0, 0, 0, 0, 0, 1]), an(&[0xfc, 0, 0, 0, 0, 0, 0, 0, 0, 0, 0, 0, 0, 0, 0, 1]), an(&[0x30, 0, 0, 0, 0, 0, 0, 0, 0, 0, 0, 0, 0, 0, 0, 1])],
+        2 => return vec![an(&[2, 0, 0, 1, 1, 1]), an(&[2, 0, 0, 1, 1, 2]), an(&[2, 0, 0, 1, 2, 1]), an(&[2, 0, 0, 2, 0, 1]), an(&[6, 0, 0, 0, 0, 1]), an(&[8, 0, 0, 0, 0, 1])],
+        _ => {}
+    }
+    vec![a4(10, 1, 1, 1), a4(10, 1, 1, 2), a4(10, 1, 2, 1), a4(10, 2, 0, 1), a4(20, 0, 0, 1), a4(30, 0, 0, 1)] }
 fn contains(r: &Range, a: &Address) -> bool {
     // bit-by-bit reference
     if r.base.len != a.len || r.prefix_len as usize > 8 * a.len as usize { return false; }
@@ -124,5 +149,19 @@ fn table_matches_reference_model() {
         let seq: Vec<Op> = (0..40).map(|_| ops[(next() % ops.len() as u64) as usize].clone()).collect();
         if let Some(why) = run(&seq) { report(&seq, why); }
     }
+    // the same for IPv6 and MAC universes (nested prefixes of 24..128 bits): all histories of length <= 2, random histories of length 40
+    for u in 1..3 {
+        UNIVERSE.store(u, std::sync::atomic::Ordering::SeqCst);
+        for a in &ops { for b in &ops {
+            let mut seq = vec![a.clone(), b.clone()];
+            seq.extend(tail.iter().cloned());
+            if let Some(why) = run(&seq) { report(&seq, format!("[address universe {}: {}] {}", u, if u == 1 { "IPv6" } else { "MAC" }, why)); }
+        } }
+        for _ in 0..1500 {
+            let seq: Vec<Op> = (0..40).map(|_| ops[(next() % ops.len() as u64) as usize].clone()).collect();
+            if let Some(why) = run(&seq) { report(&seq, format!("[address universe {}: {}] {}", u, if u == 1 { "IPv6" } else { "MAC" }, why)); }
+        }
+    }
+    UNIVERSE.store(0, std::sync::atomic::Ordering::SeqCst);
     assert_eq!(failing, 0);
 }
